@@ -57,6 +57,8 @@ func init() {
 	props["C04"] = propInfo{Engine: "stepsim", Level: "exploration", Rule: fmt.Sprintf(stepRule, "handlers configured, a stop injected, or a DAG precondition scripted"), MustProbes: []string{"exit_handler_ran", "stop_after_last_step"}, QuickS: 20, ThoroughS: 600}
 	props["C05"] = propInfo{Engine: "stepsim", Level: "exploration", Rule: fmt.Sprintf(stepRule, "the stop (socket /stop or SIGTERM at a seeded scheduler step) took effect while the run was alive, or the DAG timeout elapsed with steps running"), MustProbes: []string{"stop_with_live_children", "ignoring_child_at_stop", "repeat_alive_at_stop", "timeout_elapsed", "signal_on_stop_delivered"}, QuickS: 25, ThoroughS: 600}
 	props["C12"] = propInfo{Engine: "stepsim", Level: "exploration", Rule: "one run = a generated DAG of 1-3 steps with a subset of {stdout file, stderr file, output variable}, retries 0-2, scripted byte patterns on stdout/stderr (sizes around 4 KiB / 64 KiB boundaries, seeded chunking, interleaving), exec-style children (bytes through os/exec-like pipes and copy goroutines) or a direct-write executor; files are compared byte-exactly after the run. distinct = distinct schedule signature; non-trivial = some step printed at least one byte", MustProbes: []string{"cfg_retry+stdout", "cfg_stderr+direct", "cfg_plain"}, QuickS: 20, ThoroughS: 600}
+	props["C06"] = propInfo{Engine: "histsim", Level: "exploration", Rule: "one run = a generated sequence of 3-20 (thorough 3-42) operations (start/write/close-with-compaction/update/rename/remove-old/remove-all/sleep) over 2-3 DAG names drawn from a grammar with spaces, dots, glob metacharacters, shared prefixes, the compaction suffix and timestamp look-alikes, run against the real jsondb store on the simulated disk and fake clock (starts in the same second/minute, either side of midnight, days apart; status lines up to 140 KB); after every operation lookup-by-id, latest and recent(1,3,100) for every DAG are compared with HistoryModel through a long-lived cached instance and a fresh one. distinct = distinct schedule signature; non-trivial = at least two runs were recorded", QuickS: 20, ThoroughS: 600}
+	props["C07"] = propInfo{Engine: "histsim", Level: "fault_enumeration", Rule: "one scenario = a small prior history plus one victim operation (a whole run with compaction, an update, a rename or a retention clean-up); pass 1 counts the victim's simulated system calls, then the same scenario is re-run once per crash point: kill before / after the k-th system call, or inside a write with a torn prefix of 0, 1, half or all-but-one byte (quick: 6 seeded points per scenario; thorough: every point). After the kill the surviving disk is queried through a cached and a fresh store instance. A quarter of the scenarios instead run a concurrent reader against the un-killed victim. evaluations = simulated runs (fault-free pass + crash passes); distinct = distinct schedule signature of scenarios in which a crash landed", MustProbes: []string{"crash_landed", "concurrent_query_rounds"}, QuickS: 20, ThoroughS: 600}
 	props["C15"] = propInfo{Engine: "stepsim", Level: "exploration", Rule: fmt.Sprintf(stepRule, "at least two step commands overlapped in time"), MustProbes: []string{"limit_reached", "unlimited_overlap"}, QuickS: 20, ThoroughS: 600}
 }
 
